@@ -252,9 +252,16 @@ type IRNode struct {
 	Pos    int
 }
 
-func (p *Pipeline) Unmarshal(data []byte) error {
+func (p *Pipeline) Unmarshal(data []byte) (err error) {
+	// The chaining methods panic on a child their parent cannot have (e.g. "cannot Window batch edge");
+	// for a script tick.Evaluate turns that into an error, do the same for a document.
+	defer func() {
+		if r := recover(); r != nil {
+			err = fmt.Errorf("invalid pipeline: %v", r)
+		}
+	}()
 	var raw JSONPipeline
-	err := json.Unmarshal(data, &raw)
+	err = json.Unmarshal(data, &raw)
 	if err != nil {
 		return err
 	}
